@@ -493,6 +493,19 @@ func (o *oracle) consistency() {
 // ---- liveness
 
 // leakDemanded: a genuine leak whose release the design demands: the owner is gone and no view still justifies it.
+// podLeakUnjustified: the dead pod-owned allocation is justified by no view of the API server.
+func (o *oracle) podLeakUnjustified(a *allocT) bool {
+	w := o.w
+	v := w.apiPods[podNS+"/"+a.pod]
+	if v != nil && len(v.ips) == 0 {
+		// A pod of that name exists and has not reported any address: the collector cannot tell whether the
+		// address is its (documented allowance); when the allocation's node is gone it cannot even compare
+		// node names.  Not demanded, whatever node that pod is on.
+		return false
+	}
+	return !w.viewJustifies(v, a)
+}
+
 func (o *oracle) leakDemanded(a *allocT) bool {
 	w := o.w
 	if a.owner.alive() {
@@ -500,14 +513,19 @@ func (o *oracle) leakDemanded(a *allocT) bool {
 	}
 	switch a.owner.kind {
 	case ownPod:
-		v := w.apiPods[podNS+"/"+a.pod]
-		if v != nil && len(v.ips) == 0 {
-			// A pod of that name exists and has not reported any address: the collector cannot tell whether the
-			// address is its (documented allowance); when the allocation's node is gone it cannot even compare
-			// node names.  Not demanded, whatever node that pod is on.
+		if !o.podLeakUnjustified(a) {
 			return false
 		}
-		return !w.viewJustifies(v, a)
+		// "All of a handle's addresses together or none": the collector must hold this one back while any sibling
+		// under the same handle is alive or still justified by a view (e.g. the pod's status still reports the
+		// old sandbox's other address).
+		for _, id := range sortedKeys(o.allocs) {
+			if b := o.allocs[id]; b != a && !b.gone && b.handle == a.handle && b.owner.kind == ownPod && (b.owner.alive() || !o.podLeakUnjustified(b)) {
+				w.r.Probe("liveness_leak_not_demanded_sibling_justified")
+				return false
+			}
+		}
+		return true
 	case ownTunnel:
 		// A node's tunnel address goes only together with the node: the node is gone (Kubernetes and Calico
 		// objects) and nothing else on it still counts as in use.
